@@ -115,6 +115,17 @@ def gen_matrix(rng, kind, n, tiny=False):
         T, n, _ = gen_matrix(rng, base, n)
         T, rows = decouple(rng, T, n, rng.choice([1, 2, max(1, n // 10), max(1, n // 3)]), rng.random() < 0.5)
         info = "decoupled/" + base
+    elif kind == "nolocal":
+        # shifted Laplacian of a random graph without locality: every rank is coupled to every other one, several ranks of a
+        # node to the same remote unknowns (what the node-aware matrix exchange has to merge)
+        E = {}
+        for i in range(1, n): E[(rng.randrange(i), i)] = Fraction(rng.choice([1, 2, 3]), rng.choice([1, 2]))
+        for _ in range(2 * n):
+            i, j = rng.randrange(n), rng.randrange(n)
+            if i != j: E[(min(i, j), max(i, j))] = Fraction(rng.choice([1, 2, 3]), rng.choice([1, 2]))
+        d = [Fraction(1, 2)] * n; T = []
+        for (i, j), w in E.items(): T.append((i, j, -w)); T.append((j, i, -w)); d[i] += w; d[j] += w
+        for i in range(n): T.append((i, i, d[i]))
     elif kind == "diag":
         T = [(i, i, Fraction(rng.choice([1, 2, 3]))) for i in range(n)]
     else:
@@ -186,6 +197,8 @@ def gen_cases(ctx, P, count, with_seq):
         if tiny and kind in ("grid", "convdiff", "decoupled"): kind = "lap"
         tinyw = with_seq and k in (5, 6, 7, 8)       # every run: sequential and distributed hierarchies on couplings ~1e-7..1e-8 of the others
         if tinyw: kind = "grid"; solver = ("rs", "sa", "prs", "psa")[k - 5]; tiny = False; n = rng.randint(30, 80)
+        nolocal = (P >= 4 and (k % 3 == 2 or P >= 6))       # node-aware setup on >= 2 nodes with non-local couplings
+        if nolocal and not tinyw: kind = "nolocal"; solver = rng.choice(["prs", "prs", "psa"]); tiny = False; n = rng.randint(40, 90); force = None
         T, n, info = gen_matrix(rng, kind, n, tiny=tinyw)
         rb_part = None
         if solver in ("prs", "psa") and (rng.random() < 0.07 or force == "rb"):
@@ -213,6 +226,7 @@ def gen_cases(ctx, P, count, with_seq):
             psteps = rng.choice([1, 1, 1, 2, 0]); pweight = rng.choice(["4/3", "4/3", "1", "2/3"])
         tap = -1
         if solver in ("prs", "psa"): tap = rng.choice([-1, -1, 0, 0, 1, 2])
+        if info == "nolocal": tap = rng.choice([0, 0, 1]); max_levels = rng.choice([25, 25, 3]); theta = rng.choice(["0", "1/4"])
         part = gen_partition(rng, n, P) if solver in ("prs", "psa") else None
         if info == "redblack": part = rb_part; max_coarse = rng.choice([1, 2, max(1, n // 4)])
         if force == "rb": coarsen = 0; solver = "prs"; max_levels = 25; theta = "1/4"; strength = 0; nvars = 1
@@ -687,13 +701,15 @@ def run(ctx):
             plan.setdefault(P, []).append(c)
     else:
         plan = {P: gen_cases(ctx, P, per + (per // 2 if P == 1 else 0), P == 1) for P in (1, 2, 3, 4)}
+        plan[6] = gen_cases(ctx, 6, ctx.scale(6, 30), False)          # three nodes of two ranks, non-local couplings
     import multiprocessing
     pool = multiprocessing.get_context("fork").Pool(ctx.scale(6, 12))
     pending = []
     try:
         for P, cases in sorted(plan.items()):
-            for ppn in (["4"] if P < 4 else ["4", "2"]):
-                sub = cases if P < 4 else (cases[0::2] if ppn == "4" else cases[1::2])
+            for ppn in (["4"] if P < 4 else ["4", "2"] if P == 4 else ["2"]):
+                sub = cases if P != 4 else ([c for c in cases if c["info"] != "nolocal"][0::2] if ppn == "4" else
+                                            [c for c in cases if c["info"] != "nolocal"][1::2] + [c for c in cases if c["info"] == "nolocal"])
                 if not sub: continue
                 res, crashed = fw.run_impl_lines(ctx, "drv_hier", [c["line"] for c in sub], nprocs=P, env={"PPN": ppn},
                                                  timeout=ctx.scale(240, 1500), name="c08p%d_%s" % (P, ppn))
